@@ -120,7 +120,8 @@ CHECKS = {
           "close(): CloseInv inductive over every schedule, c20s_closed (writer stopped, every accepted task done, socket closed, reader gone), "
           "c20s_writer_flushed, mstep_close_no_handler, c20s_close_progress, and I/O failures (Conc/MetaFault.lean): mstep_io_only_on_fault, "
           "mstep_read_fault / mstep_write_fault (handler told once iff installed, exit iff absent or true), mreach_nio, mreach_exited, "
-          "mstep_fault_isolated; tied by lock-step co-simulation of close and failure scenarios, by fault-injection co-simulation of both real servers under the scheduler (EOF / "
+          "mstep_fault_isolated, and the same for the Data server model (Conc/DataClose.lean, Conc/DataFault.lean: DCloseInv, DPoolInv, "
+          "c20d_closed, greach_nio, …); tied by lock-step co-simulation of close and failure scenarios on both server kinds, by fault-injection co-simulation of both real servers under the scheduler (EOF / "
           "reset at every inbound offset class, each write index up to 8, close requests by id and agreed version, close() twice, handler "
           "absent/True/False/None, pool tasks in flight) and by the reader-dispatch differential.",
   "ref": "DESIGN.md §5 C20",
